@@ -13,7 +13,7 @@ PROPS = {
     },
     'C01': {
         'lean': ['Netpol.Properties.C01'],
-        'families': [('list', 1500, 60000), ('mut', 300, 10000)],
+        'families': [('list', 1500, 60000), ('mut', 300, 10000), ('render', 200, 8000)],
         'accept_props': ['C01'],
         'rule': 'generated worlds (1-3 namespaces, 1-5 workloads/pods, 0-4 NetworkPolicies, optional ANPs/BANP) rendered to a directory and '
                 'analysed by the real ConnlistFromDirPath; compared with the model (K-diff) and with the pointwise specification (P). '
